@@ -32,7 +32,7 @@ pub fn judge(trace: &Trace) -> Verdict {
             }
             Verdict {
                 failures: vec![Failure {
-                    props: &["C03"],
+                    props: crate::exec::CURRENT_PROPS.with(|c| c.get()),
                     check: "panic",
                     tick: if tick == usize::MAX { 0 } else { tick },
                     detail: msg.clone(),
